@@ -346,10 +346,16 @@ def check_seq(c):
         model.get_args()
         Simulator(model).simulate(0.5, steps=2).get_result()
     try:
+        if c.get("prior"):
+            # the same model object has been scanned before, over other columns: this scan's rows are still those of
+            # the model as it was declared
+            run_kind(c["prior"][0], model, make_df(table(c["prior"][1], 2)), parallel=False)
         sc = run_kind(c["kind"], model, df, **kw)
     except Exception as exc:  # noqa: BLE001
         return outcome(False, "scan-raised", symptom=f"scan-raised:{type(exc).__name__}", nontrivial=nt, detail=f"{type(exc).__name__}: {str(exc)[:200]} | {txt}")
     bad = compare_rows(sc, c["kind"], c["model"], df, c["read"], c["view_first"], txt, nt, y0=y0)
+    if bad is not None and c.get("prior"):
+        bad["symptom"] = "second-scan:" + bad["symptom"]
     return bad if bad is not None else outcome(True, "rows-equal", nontrivial=nt)
 
 
@@ -505,6 +511,9 @@ def generate(tier):
         cases.append({"family": "seq", "model": model, "table": tbl, "kind": kind, "rows": 3, "read": [2, 0, 1], "view_first": "fluxes", "labels": ["c", "a", "b"]})
     for tbl, kind, warm in it.product(("iapar", "iapar-both"), seq_kinds + mc_kinds_early, (False, True)):
         cases.append({"family": "seq", "model": "ia", "table": tbl, "kind": kind, "rows": 3, "read": [2, 0, 1], "view_first": "variables", "warm": warm})
+    # one model object scanned twice: first over initial values (or both), then over a parameter
+    for model, kind, prior_tbl, prior_kind in it.product(("ia", "cons", "derived"), seq_kinds + mc_kinds_early, ("init", "both"), ("time_course", "steady_state")):
+        cases.append({"family": "seq", "model": model, "table": "par", "kind": kind, "rows": 2, "read": [1, 0], "view_first": "variables", "prior": [prior_kind, prior_tbl]})
     # scan tables in which a row occurs more than once
     for tbl, kind, rows in it.product(("par-dup", "both-dup"), seq_kinds + mc_kinds_early, (3, 5)):
         cases.append({"family": "seq", "model": "cons", "table": tbl, "kind": kind, "rows": rows, "read": list(range(rows - 1, -1, -1)), "view_first": "variables"})
